@@ -86,7 +86,7 @@ def _cases(tier, rng):
             for cut in cuts:
                 yield {"dag": d, "S": list(S), "cut": list(cut), "entry": rng.choice(("subpipeline", "map-output_names",
                                                                                      "map-auto_subpipeline")),
-                       "omit_defaults": rng.random() < 0.4}
+                       "omit_defaults": rng.random() < 0.4, "scoped": rng.random() < 0.25}
 
 
 def _safe_eval(d, out):
@@ -122,8 +122,9 @@ def _check(case):
         return []
     calls_expected = needed_funcs(d, S, cut)
     bad = []
+    scoped = case.get("scoped") and case["entry"] != "subpipeline"
     try:
-        p = dag.build(d)
+        p = dag.build(d, scope="foo") if scoped else dag.build(d)
     except Exception as e:  # noqa: BLE001
         return [f"construction-raised-{type(e).__name__}"]
     I = set(kw)
@@ -147,13 +148,16 @@ def _check(case):
                     bad.append(f"subpipeline call {s} raised {type(e).__name__}: {str(e)[:120]}")
         else:
             extra = {"auto_subpipeline": True} if case["entry"] == "map-auto_subpipeline" else {}
+            pre = "foo." if scoped else ""
             try:
-                res = p.map(dict(kw), output_names=set(S), parallel=False, storage="dict", **extra)
+                # scoped pipelines: inputs in the nested-dict calling convention
+                res = p.map({"foo": dict(kw)} if (scoped and kw) else dict(kw), output_names={pre + s for s in S},
+                            parallel=False, storage="dict", **extra)
             except Exception as e:  # noqa: BLE001
-                return [f"map(output_names={S}, inputs={sorted(I)}) refused a computable request: {type(e).__name__}: {str(e)[:150]}"]
-            got = {s: res[s].output for s in S if s in res}
+                return [f"map(output_names={S}, inputs={sorted(I)}, scoped={bool(scoped)}) refused a computable request: {type(e).__name__}: {str(e)[:150]}"]
+            got = {s: res[pre + s].output for s in S if pre + s in res}
             for s in S:
-                if s not in res:
+                if pre + s not in res:
                     bad.append(f"map result lacks {s}")
     finally:
         progs.set_log(None)
